@@ -15,6 +15,14 @@ pub const RSA2048_PHI: [(&str, &str); 2] = [
     (include_str!("../../fixtures/rsa2048_phi_1.pem"), include_str!("../../fixtures/rsa2048_phi_1.pub.pem")),
 ];
 
+/// honest openssl-generated keys whose PKCS#1 DER is unusually short (1186 / 1187 bytes instead of
+/// 1190..1193: two of d, dP, dQ, qInv lose a leading byte; found by generating ~40 000 keys)
+pub const RSA2048_SHORT: [(&str, &str); 3] = [
+    (include_str!("../../fixtures/rsa2048_short_0.pem"), include_str!("../../fixtures/rsa2048_short_0.pub.pem")),
+    (include_str!("../../fixtures/rsa2048_short_1.pem"), include_str!("../../fixtures/rsa2048_short_1.pub.pem")),
+    (include_str!("../../fixtures/rsa2048_short_2.pem"), include_str!("../../fixtures/rsa2048_short_2.pub.pem")),
+];
+
 pub const RSA2048: [(&str, &str); 4] = [
     (include_str!("../../fixtures/rsa2048_0.pem"), include_str!("../../fixtures/rsa2048_0.pub.pem")),
     (include_str!("../../fixtures/rsa2048_1.pem"), include_str!("../../fixtures/rsa2048_1.pub.pem")),
@@ -33,11 +41,19 @@ pub const RSA_WRONG: [(u32, &str, &str); 4] = [
     (3072, include_str!("../../fixtures/rsa3072.pem"), include_str!("../../fixtures/rsa3072.pub.pem")),
 ];
 
+fn v1_signing_pair(idx: usize) -> (&'static str, &'static str) {
+    match idx % 9 {
+        i @ 0..=3 => RSA2048[i],
+        i @ 4..=5 => RSA2048_PHI[i - 4],
+        i => RSA2048_SHORT[i - 6],
+    }
+}
+
 /// (PEM text, is_secret)
 pub fn pool_key(kind: Kind, idx: usize) -> Option<(&'static str, bool)> {
     match kind {
-        Kind::Secret => Some((if idx % 6 < 4 { RSA2048[idx % 6].0 } else { RSA2048_PHI[idx % 6 - 4].0 }, true)),
-        Kind::Public => Some((if idx % 6 < 4 { RSA2048[idx % 6].1 } else { RSA2048_PHI[idx % 6 - 4].1 }, false)),
+        Kind::Secret => Some((v1_signing_pair(idx).0, true)),
+        Kind::Public => Some((v1_signing_pair(idx).1, false)),
         Kind::PkeSecret => Some((RSA4096[idx % 2].0, true)),
         Kind::PkePublic => Some((RSA4096[idx % 2].1, false)),
         Kind::Local => None,
